@@ -85,11 +85,13 @@ func (channel *Channel) queueDeclare(method *amqp.QueueDeclare) *amqp.Error {
 			)
 		}
 
-		channel.SendMethod(&amqp.QueueDeclareOk{
-			Queue:         method.Queue,
-			MessageCount:  uint32(existingQueue.Length()),
-			ConsumerCount: uint32(existingQueue.ConsumersCount()),
-		})
+		if !method.NoWait {
+			channel.SendMethod(&amqp.QueueDeclareOk{
+				Queue:         method.Queue,
+				MessageCount:  uint32(existingQueue.Length()),
+				ConsumerCount: uint32(existingQueue.ConsumersCount()),
+			})
+		}
 		return nil
 	}
 
@@ -110,11 +112,13 @@ func (channel *Channel) queueDeclare(method *amqp.QueueDeclare) *amqp.Error {
 			method.MethodIdentifier(),
 		)
 	}
-	channel.SendMethod(&amqp.QueueDeclareOk{
-		Queue:         method.Queue,
-		MessageCount:  0,
-		ConsumerCount: 0,
-	})
+	if !method.NoWait {
+		channel.SendMethod(&amqp.QueueDeclareOk{
+			Queue:         method.Queue,
+			MessageCount:  0,
+			ConsumerCount: 0,
+		})
+	}
 
 	return nil
 }
@@ -245,6 +249,8 @@ func (channel *Channel) queueDelete(method *amqp.QueueDelete) *amqp.Error {
 		return amqp.NewChannelError(amqp.PreconditionFailed, errDel.Error(), method.ClassIdentifier(), method.MethodIdentifier())
 	}
 
-	channel.SendMethod(&amqp.QueueDeleteOk{MessageCount: uint32(length)})
+	if !method.NoWait {
+		channel.SendMethod(&amqp.QueueDeleteOk{MessageCount: uint32(length)})
+	}
 	return nil
 }
